@@ -24,11 +24,35 @@ CLAIMED = {
         "The oracle is the engine's own transcription of the CDDL (DESIGN.md Appendix A) with the stated leniencies for pre-Conway forms; it shares no code with the library or cbor_event.",
         "DESIGN.md §5 C03, Appendix A",
     ),
+    "C04": (
+        "proptest-driven generation of transactions re-emitted in non-canonical encodings + generated add-signature histories, checked against byte offsets from an independent CBOR reader and an independent blake2b",
+        "Generated-input search over (encoding, history): a generated transaction is re-emitted by the engine's CBOR writer with tape-chosen non-canonical detail (non-minimal heads, indefinite containers, rotated map keys, chunked strings, untagged sets, legacy 3-element array, empty arrays under witness keys, duplicate witnesses); after every operation of a generated history (sign / add vkey, Icarus / Daedalus bootstrap, repeats, reload, set_body) the raw body, raw auxiliary data, every untouched witness field (byte slices located by the engine's reader) and blake2b256(original body) are compared. Plutus data in non-canonical forms must re-encode byte-identically, stand-alone and embedded; FixedBlock bodies keep their original bytes and hashes.",
+        "Trusts cryptoxide's blake2b and the engine's CBOR reader/writer. Inputs rejected by the byte-preserving decoders are rejects (counted, kept below 35 %).",
+        "DESIGN.md §5 C04",
+    ),
+    "C11": (
+        "bounded-exhaustive header x length grid + proptest-driven typed / pointer / Byron / Bech32 generation against an engine-side reference address classifier",
+        "Generated-input search: all 256 header bytes x payload lengths 0..80 (several payload fillings per cell) and generated typed addresses, pointer varints over the full u64 range, hand-assembled Byron CBOR (attributes, CRC, trailing bytes) and Bech32 strings are classified by the engine's own reference (nibble dispatch, varint reader, CRC-32, strict Byron parse) and compared with every stand-alone parser and with the same bytes embedded in outputs, bodies, pool params and withdrawals.",
+        "Trusts the engine's reference classifier (written from the CDDL / CIP-19, unit-tested against published vectors) and its Bech32 / Base58 encoders.",
+        "DESIGN.md §5 C11",
+    ),
+    "C12": (
+        "proptest-driven generation of keys, messages, derivation paths and encryption parameters with algebraic oracles (sign/verify, public/private derivation agreement, codec inverses, decrypt-encrypt)",
+        "Generated-input search: for keys of every kind derived from tape bytes, signatures must verify and fail under another message / key / flipped bit; witness helpers must sign exactly the 32 hash bytes; soft derivation must commute with to_public along paths of depth <= 6 and hard indices must be refused on the public side; every key / signature encoding must round-trip; password encryption must round-trip and reject modified containers and other passwords (PBKDF2 cases bounded by count).",
+        "No independent Ed25519-BIP32 implementation is available offline: a primitive that is self-consistently wrong would pass; cryptoxide / ed25519-bip32 are the trusted base (the repository's literal test vectors cover that side).",
+        "DESIGN.md §5 C12",
+    ),
     "C14": (
         "proptest-driven tape generation over width classes + boundary-point enumeration against u128/i128/num-bigint reference arithmetic and an independent CBOR reader",
         "Generated-input search: BigNum/Int/BigInt/Value operations and codecs are compared with exact reference arithmetic; every Int obtained through any public route (constructors, decimal strings, CBOR incl. non-minimal heads, JSON, metadata JSON numbers and keys, MintBuilder accumulation, Mint JSON) is checked for range and for exact survival through to_str/from_str, CBOR (read back independently) and JSON; Value laws (commutativity, associativity, subtraction undoing addition, comparison vs component-wise order) are checked against a BTreeMap model.",
         "Trusts num-bigint and 128-bit machine arithmetic. Asset clamping in Value::checked_sub is documented library behaviour and not counted as silent saturation; BigNum::div_floor by zero is outside the domain.",
         "DESIGN.md §5 C14",
+    ),
+    "C17": (
+        "proptest-driven generation of typed values, metadata trees, datums and schema-grammar JSON with round-trip / identity / rejection oracles",
+        "Generated-input search: from_json(to_json(v)) must equal v and give the same CBOR for every typed value whose map-typed parts were filled in ascending key order (content equality up to map order otherwise); JSON in each metadata schema's normal form must survive JSON -> metadata -> JSON, metadata must survive metadata -> JSON -> metadata under NoConversions (up to object member order) and DetailedSchema, every datum must survive DetailedSchema JSON, arbitrary bytes must survive the 64-byte chunk helpers, and ~80 classes of out-of-schema documents must be refused or decode to an equal document.",
+        "The normal forms are derived from the library's documented schema rules; 'ascending' means the key type's own order in the library.",
+        "DESIGN.md §5 C17",
     ),
     "C15": (
         "proptest-driven tape generation + bounded-exhaustive tier-edge enumeration against an exact big-integer reference",
